@@ -22,6 +22,8 @@ def main():
         confirmed = "CONFIRMED" in open(os.path.join(d, "confirm.log")).read()
     r = sh("%s/harness/run_seeded.sh %s %s" % (V, name, pid))
     out = r.stdout.strip()
+    if "PATCH-DOES-NOT-APPLY" in out:
+        print(name, "PATCH-DOES-NOT-APPLY to the current /repo HEAD"); return
     detected = "VIOLATION" in out
     with_input = detected and any(("VIOLATION" in l and "no-failing-input-found" not in l) for l in out.split("\n"))
     meta = dict(property=pid, breaks=open(os.path.join(d, "README.md")).read().split("\n")[0].lstrip("# ") if os.path.exists(os.path.join(d, "README.md")) else "",
